@@ -382,4 +382,35 @@ theorem underscore_never_prog (n : Nat) (stmts : List Stmt) (σ : State) (h : ev
   | crash w σ1 => rw [hb] at h; simp [Res.bind] at h
   | timeout => rw [hb] at h; simp [Res.bind] at h
 
+/-! ## the same kinds, read off the source on every run
+
+`Gen.bindRejects` / `Gen.paramRejects` are regenerated by tools/extract.py from the `RawExpr::K… => new_invalid_bind_error("…")`
+arms of the binder (`bind_next`) and of the parameter validator (`validate_args`). -/
+
+/-- the source variant name of an expression kind -/
+def kindName : RawExpr → List Char
+  | .Null => c!"Null" | .Bool _ => c!"Bool" | .Int _ => c!"Int" | .Str _ _ => c!"Str" | .Var _ => c!"Var"
+  | .BinaryOp _ _ _ _ => c!"BinaryOp" | .List _ _ => c!"List" | .Index _ _ => c!"Index" | .RangeIndex _ _ _ => c!"RangeIndex"
+  | .Range _ _ => c!"Range" | .Object _ => c!"Object" | .Prop _ _ _ => c!"Prop" | .Func _ _ _ => c!"Func" | .Call _ _ => c!"Call"
+
+/-- the parameter validator of the source rejects exactly the kinds the model's `invalidBindDescr` rejects, with the same
+    descriptions -/
+theorem param_rejects_are_the_source's (raw : RawExpr) : invalidBindDescr raw = lookupAssoc (kindName raw) Gen.paramRejects := by
+  cases raw <;> rfl
+
+/-- the binder of the source rejects those kinds except the three targets (element, range, property) that only a
+    parameter list refuses; so exactly variables, element / range / property targets and list / object patterns can be bound -/
+theorem bind_rejects_are_the_source's (raw : RawExpr) :
+    lookupAssoc (kindName raw) Gen.bindRejects =
+      (match raw with
+       | .Index _ _ => none | .RangeIndex _ _ _ => none | .Prop _ _ _ => none
+       | r => invalidBindDescr r) := by
+  cases raw <;> rfl
+
+theorem bindable_kinds_as_documented :
+    Gen.bindRejects.map Prod.fst = [c!"Null", c!"Bool", c!"Int", c!"Str", c!"BinaryOp", c!"Range", c!"Func", c!"Call"] ∧
+    Gen.paramRejects.map Prod.fst =
+      [c!"Index", c!"RangeIndex", c!"Prop", c!"Null", c!"Bool", c!"Int", c!"Str", c!"BinaryOp", c!"Range", c!"Func", c!"Call"] := by
+  decide
+
 end Seed.C20
